@@ -193,6 +193,7 @@ def opt_case(spec, pid):
             return res
         feeds_list = _feeds_for(rng, info)
         over = _override_feeds(rng, info, feeds_list[0]) if info["init_inputs"] else []
+        nondet = set(info.get("nondet_outputs") or [])
         label = {"gen": spec["i"], "opset": spec["opset"], "nodes": info["n_nodes"],
                  "ops": sorted({n.op_type for n in m.graph.node})[:12]}
         for k, v in info["events"].items():
@@ -211,6 +212,7 @@ def opt_case(spec, pid):
         m, feeds = lf
         feeds_list = [feeds]
         over = []
+        nondet = set()
         expected = outs if all(o is not None for o in outs) else None
         label = {"corpus": spec["dir"], "lift": spec["lift"]}
         hit("corpus_" + spec["lift"])
@@ -269,7 +271,7 @@ def opt_case(spec, pid):
             res["c04"].append({"key": f"mech={culprit or '?'};kind={kind}", "what": f"{o['api']}({_optstr(o)}): {sd}",
                                "detail": {"opts": o, "case": label, "fired": list(dict.fromkeys(fired))[:20]}})
         # ---- C03: semantics
-        v, d = optcommon.equivalent(m, m2, feeds_list, base_main)
+        v, d = optcommon.equivalent(m, m2, feeds_list, base_main, nondet=nondet)
         if v.startswith("inconclusive"):
             hit(v.replace(":", "_"))
         elif v != "ok":
@@ -279,16 +281,16 @@ def opt_case(spec, pid):
                     hit("corpus_both_within_expectation")
                     v = "ok"
             if v != "ok":
-                culprit = optcommon.attribute(m, o, lambda x: _okish(optcommon.equivalent(m, x, feeds_list, base_main)[0]), fired, known)
+                culprit = optcommon.attribute(m, o, lambda x: _okish(optcommon.equivalent(m, x, feeds_list, base_main, nondet=nondet)[0]), fired, known)
                 res["c03"].append({"key": _key(culprit, v), "what": f"{o['api']}({_optstr(o)}) changes the result [{v}]: {d}",
                                    "detail": {"opts": o, "case": label, "fired": list(dict.fromkeys(fired))[:20], "kind": v}})
                 hit("mismatch")
         # ---- C04: overridable initializer-inputs
         if over and not serr:
-            v2, d2 = optcommon.equivalent(m, m2, over, base_over)
+            v2, d2 = optcommon.equivalent(m, m2, over, base_over, nondet=nondet)
             hit("override_runs")
             if v2 not in ("ok",) and not v2.startswith("inconclusive") and v == "ok":
-                culprit = optcommon.attribute(m, o, lambda x: _okish(optcommon.equivalent(m, x, over, base_over)[0]), fired, known)
+                culprit = optcommon.attribute(m, o, lambda x: _okish(optcommon.equivalent(m, x, over, base_over, nondet=nondet)[0]), fired, known)
                 res["c04"].append({"key": f"mech={culprit or '?'};kind=override", "what": f"{o['api']}: result differs when an initializer-input is overridden: {d2}",
                                    "detail": {"opts": o, "case": label, "fired": list(dict.fromkeys(fired))[:20]}})
     res["fired"] = sorted(all_fired)
